@@ -575,6 +575,33 @@ export type VariableType = {
 "#;
 
 impl VariableType {
+    /// Checks that the range is one a `define` declaration accepts: the minimum
+    /// is not above the maximum, neither is NaN, and a NonNegativeReal does not
+    /// start below zero. Models built through the API are held to the same rule
+    /// as models written as text.
+    pub fn validate_range(&self) -> Result<(), String> {
+        let (min, max) = match self {
+            VariableType::Boolean => return Ok(()),
+            VariableType::IntegerRange(min, max) => (*min as f64, *max as f64),
+            VariableType::Real(min, max) | VariableType::NonNegativeReal(min, max) => (*min, *max),
+        };
+        if min.is_nan() || max.is_nan() {
+            return Err("The bounds of a variable must be numbers. Got NaN".to_string());
+        }
+        if matches!(self, VariableType::NonNegativeReal(_, _)) && min < 0.0 {
+            return Err(format!(
+                "Minimum value of a NonNegativeReal must be greater than or equal to 0. Got {}",
+                min
+            ));
+        }
+        if min > max {
+            return Err(format!(
+                "Minimum value must be less than or equal to the maximum value. Got {} > {}",
+                min, max
+            ));
+        }
+        Ok(())
+    }
     pub fn non_negative_real() -> VariableType {
         VariableType::NonNegativeReal(0.0, f64::INFINITY)
     }
